@@ -11,9 +11,12 @@
 package c18
 
 import (
+	"context"
 	"database/sql"
+	"database/sql/driver"
 	"errors"
 	"fmt"
+	"io"
 	"strings"
 
 	"verifh/engine"
@@ -137,6 +140,10 @@ type panicPayload struct {
 type leaf struct {
 	kind leafKind
 	idx  int
+	// flavour selects the error value an error-returning / error-panicking step uses:
+	// 0 = an error private to the step, 1.. = well-known sentinel errors (a Transact that
+	// treated some of them as "not a failure" would break the property for those steps)
+	flavour int
 	// runtime
 	ran      int
 	returned error // what the step returned (error-returning kinds)
@@ -203,6 +210,30 @@ func (p *program) firstFailure() int {
 	return len(p.leaves)
 }
 
+var sentinelErrors = []error{
+	nil, // flavour 0: private error
+	gorm.ErrRecordNotFound,
+	sql.ErrNoRows,
+	sql.ErrTxDone,
+	context.Canceled,
+	context.DeadlineExceeded,
+	io.EOF,
+	driver.ErrBadConn,
+	gorm.ErrInvalidTransaction,
+	gorm.ErrDuplicatedKey,
+}
+
+// stepError returns the error value of a failing step.
+func (l *leaf) stepError(private error, wrap bool) error {
+	if l.flavour <= 0 || l.flavour >= len(sentinelErrors) {
+		return private
+	}
+	if wrap {
+		return fmt.Errorf("c18-step%d-wrapper: %w", l.idx, sentinelErrors[l.flavour])
+	}
+	return sentinelErrors[l.flavour]
+}
+
 const stmtOK = "UPDATE c18_t SET v = ? WHERE id = ?"
 const stmtRefused = "UPDATE c18_t SET v = ? WHERE id = ? " + failMarker
 
@@ -216,13 +247,13 @@ func (l *leaf) fn(srv *server) gormx.GormProcFn {
 			// inside the enumerated space the server never refuses a statement
 			return exec(stmtOK, 0)
 		case lErr:
-			l.returned = fmt.Errorf("c18-step%d-error", l.idx)
+			l.returned = l.stepError(fmt.Errorf("c18-step%d-error", l.idx), false)
 			return l.returned
 		case lPanicStr:
 			l.payload = fmt.Sprintf("c18-step%d-panic-string", l.idx)
 			panic(l.payload)
 		case lPanicErr:
-			l.payload = fmt.Errorf("c18-step%d-panic-error", l.idx)
+			l.payload = l.stepError(fmt.Errorf("c18-step%d-panic-error", l.idx), false)
 			panic(l.payload)
 		case lOKNoExec:
 			return nil
@@ -239,7 +270,7 @@ func (l *leaf) fn(srv *server) gormx.GormProcFn {
 			return nil
 		case lErrAfterExec:
 			_ = exec(stmtOK, 0)
-			l.returned = fmt.Errorf("c18-step%d-error-after-exec", l.idx)
+			l.returned = l.stepError(fmt.Errorf("c18-step%d-error-after-exec", l.idx), false)
 			return l.returned
 		case lPanicAfterExec:
 			_ = exec(stmtOK, 0)
@@ -252,7 +283,7 @@ func (l *leaf) fn(srv *server) gormx.GormProcFn {
 			l.payload = panicPayload{Leaf: l.idx, Why: "c18-struct-payload"}
 			panic(l.payload)
 		case lErrWrapped:
-			l.returned = fmt.Errorf("c18-step%d-wrapper: %w", l.idx, errors.New("c18-inner"))
+			l.returned = l.stepError(fmt.Errorf("c18-step%d-wrapper: %w", l.idx, errors.New("c18-inner")), true)
 			return l.returned
 		}
 		return nil
@@ -793,6 +824,35 @@ func enumCase(k *engine.Case, n int, combine bool) {
 			}
 		}
 	}
+	// sentinel pass: the same step lists again with every well-known sentinel error as the
+	// value that failing steps return / panic with (fault-free begin/commit/rollback)
+	flav := 0
+	if n >= 1 && !st.aborted {
+		okPlan := pls[0]
+		for code := 0; code < lists; code++ {
+			c := code
+			hasErr := false
+			for i := n - 1; i >= 0; i-- {
+				kinds[i] = leafKind(c % int(nBaseKinds))
+				c /= int(nBaseKinds)
+				if kinds[i] == lErr || kinds[i] == lPanicErr {
+					hasErr = true
+				}
+			}
+			if !hasErr {
+				continue
+			}
+			for fl := 1; fl < len(sentinelErrors); fl++ {
+				p := groupedProgram(kinds, (code+fl)%groupings, combine, false)
+				for _, l := range p.leaves {
+					l.flavour = fl
+				}
+				st.evaluate(p, okPlan, flav%97 == 0)
+				flav++
+			}
+		}
+		k.Count("enum_sentinel_error_combinations", int64(flav))
+	}
 	if st.aborted {
 		return
 	}
@@ -824,12 +884,16 @@ func randomProgram(k *engine.Case, maxLeaves int) *program {
 	badKinds := []leafKind{lErr, lPanicStr, lPanicErr, lExecRefused, lErrAfterExec, lPanicAfterExec, lPanicInt, lPanicStruct, lErrWrapped}
 	pBad := []int{0, 8, 4, 2}[r.Intn(4)] // 0: never, else 1/pBad per leaf
 	leaves := make([]*node, nl)
+	flavours := make([]int, nl)
 	for i := range leaves {
 		lk := okKinds[r.Intn(len(okKinds))]
 		if pBad > 0 && r.Intn(pBad) == 0 {
 			lk = badKinds[r.Intn(len(badKinds))]
+			if r.Intn(2) == 0 {
+				flavours[i] = 1 + r.Intn(len(sentinelErrors)-1)
+			}
 		}
-		leaves[i] = &node{lf: &leaf{kind: lk}}
+		leaves[i] = &node{lf: &leaf{kind: lk, flavour: flavours[i]}}
 	}
 	// random bracketing, depth <= 3, with occasional empty Combine()
 	var group func(ns []*node, depth int) []*node
